@@ -31,6 +31,11 @@ TOKENS = ['data_', 'data_x', 'save_', 'save_f', 'loop_', 'stop_', 'global_', '_n
           '[', ']', '{', '}', ':', '#', '#\\#CIF_2.0\n', '#\\#CIF_1.1\n', '\\\n', ';\\\n', ';> \\\\\n', '?', '.', ' ', '\t', '\n', '\r', '\r\n',
           '1.5(3)', 'abc', "'k':", '"k":v', '[1 2]', '{"a":1}', '$', '\ufeff', '\x0b', '\x0c', '\x1a', '\x7f', '\x00', '\ufffe', '\U0010ffff',
           '\ud800', '\udc00', '\u00e9', '\U0001f600']
+# fragments that drive the parser into its recovery actions (every documented error class, nested and combined)
+SNIPPETS = ["{\n;k\x01\n;:1 'c':2}", "{\n;key\n;:v}", "{'a\x01':1}", '{"a\x0bb":[1 {\'k\x0c\':2}]}', 'loop_\n_ _b 1 2 3\n', 'loop_\n_a _A _a 1 2 3 4\n',
+            '_ bare\n', '_x 1 _x 2\n', 'loop_\n_p _q\n', 'loop_ stop_\n', "{:v 'b':2}", '{a:1 b :2}', "{'a': 'b':2}", "{'a':1 stray}", '[1 [2 {"k":[}]\n',
+            "save_s _in 1 save_s2 _in 2 save_ save_\n", 'save_\n', 'data_\n_e 1\n', 'data_d\ndata_D\n', "_q 'abc\n", '_t \'\'\'x\n', ';unterminated\n', "'x'_y 'z'\n",
+            ']\n', '}\n', 'global_\n', 'stop_\n', '_v data_x\n', "_k {'a':1}:2\n", '_l [1 2]]\n', ';\\\n;x\n;\n', ';> \\\\\n> a\\\n>b\n;\n', '_n ' + '9' * 30 + 'e' + '9' * 12 + '\n']
 BAD_BYTES = [b'\x00', b'\xff', b'\xfe', b'\xc0\x80', b'\xed\xa0\x80', b'\xed\xb0\x80', b'\xef\xbb\xbf', b'\xef\xbf\xbe', b'\xf4\x90\x80\x80',
              b'\xe2\x82', b'\x80', b'\x1a', b'\x0b', b'\x0c', b'\x7f', b'\xff\xfe', b'\xfe\xff', b'\x00\x00\xfe\xff', b'\xf0\x9f\x98', b'\x85', b'\xc2\x85']
 CODECS = ['utf-8', 'utf-8', 'utf-8', 'utf-8', 'utf-16-le', 'utf-16-be', 'utf-32-le', 'utf-32-be', 'latin-1']
@@ -76,7 +81,8 @@ def seed_input(rng):
         label = 'defects'
     else:
         n = rng.choice([3, 10, 40, 200])
-        text = rng.choice(['#\\#CIF_2.0\n', '', 'data_b\n']) + ''.join(rng.choice(TOKENS) + rng.choice(['', ' ', ' ', '\n']) for _ in range(n))
+        pool = TOKENS + SNIPPETS if rng.random() < 0.5 else TOKENS
+        text = rng.choice(['#\\#CIF_2.0\n', '', 'data_b\n']) + ''.join(rng.choice(pool) + rng.choice(['', ' ', ' ', '\n']) for _ in range(n))
         label = 'soup'
     codec = rng.choice(CODECS)
     bom = rng.random() < 0.3
@@ -108,7 +114,7 @@ def mutate(rng, b):
             b[k:k] = rng.choice(BAD_BYTES) * rng.choice([1, 1, 2])
         elif op == 'insert-token':
             k = rng.randrange(n + 1)
-            b[k:k] = rng.choice(TOKENS).encode('utf-8', 'surrogatepass')
+            b[k:k] = rng.choice(TOKENS + SNIPPETS).encode('utf-8', 'surrogatepass')
         elif op == 'token16':
             k = rng.randrange(n + 1)
             b[k:k] = rng.choice(TOKENS).encode(rng.choice(['utf-16-le', 'utf-16-be', 'utf-32-le']), 'surrogatepass')
